@@ -344,3 +344,4 @@ def replay_C12(prop, f):
         r = classify(f['doc'], 'str', False)
         return r.startswith('exc:') and r != 'exc:UnknownMosFileType'
     return replay_generic(prop, f)
+from oracles3 import *   # noqa: accessor oracles
